@@ -164,6 +164,8 @@ def classify(chk):
 def finish(chk, wall_s, seed=0, selftest=None, write=True):
     """Print the protocol lines, write evidence and replay files, return the exit status."""
     prop = chk.prop
+    if getattr(chk.src, 'canon_errors', None):
+        raise AnalysisError('internal error in the canonicaliser (the rules would silently see un-normalised source): ' + '; '.join(chk.src.canon_errors[:3]))
     low = chk.check_floors()
     if low and not chk.refutations():
         raise AnalysisError('rule instance count below the reviewed floor: ' +
